@@ -558,12 +558,36 @@ def check_no_effect(w, g, before, what):
 
 
 def check_inv(w, g):
-    """Structural clauses of Inv on the post-state (B1, B5 node field, B7)."""
-    for k, s in g.gw.sensors.items():
-        w.check(w.eq(s.__dict__["sensor_id"], k), "Inv B1: sensor_id differs from its key")
-        for line in s.__dict__["queue"]:
-            ok = queue_line_addressed_to(w, line, k)
-            w.check(ok, "Inv B5: withheld line not addressed to its own node")
+    """Structural clauses of Inv on the post-state (DESIGN Appendix B: B1, B3/B4 structure, B5,
+    B6, B7) - what makes the one-step results compose into every history."""
+    def member(x, keys):
+        keys = list(keys)
+        return w.or_(*[w.eq(x, k) for k in keys]) if keys else False
+    sensors = g.gw.sensors
+    for k, s in sensors.items():
+        d = s.__dict__
+        w.check(w.eq(d["sensor_id"], k), "Inv B1: sensor_id differs from its key")
+        for ck, child in d["children"].items():
+            w.check(w.eq(child.id, ck), "Inv B3: child id differs from its key")
+        for ck, ns in d["new_state"].items():
+            w.check(member(ck, d["children"].keys()),
+                    "Inv B4: desired state for a child that is not presented")
+            w.check(w.eq(ns.id, ck), "Inv B4: desired-state child id differs from its key")
+        if len(d["queue"]) > 0:
+            w.check(len(d["new_state"]) > 0, "Inv B5: commands parked for a node that is awake")
+        for line in d["queue"]:
+            w.check(queue_line_addressed_to(w, line, k),
+                    "Inv B5: withheld line not addressed to its own node")
+    ota = g.gw.tasks.ota
+    stores = [ota.requested, ota.unstarted, ota.started]
+    for i, store in enumerate(stores):
+        for nid, fw_id in store.items():
+            w.check(member(nid, sensors.keys()), "Inv B6: firmware session of an unknown node")
+            w.check(member(fw_id, ota.firmware.keys()),
+                    "Inv B6: firmware session refers to a firmware that is not stored")
+            for other in stores[i + 1:]:
+                w.check(w.not_(member(nid, other.keys())),
+                        "Inv B6: node in two firmware session stores at once")
     w.check(len(g.gw.tasks.queue) == 0, "Inv B7: job queue not drained")
 
 
